@@ -441,7 +441,8 @@ impl Client {
             } else if !s.configured {
                 ["configurationDone", "configurationDone", "setBreakpoints", "setFunctionBreakpoints", "setExceptionBreakpoints", "threads"][t.choose(6)]
             } else if s.exited || s.terminated {
-                ["threads", "restart", "disconnect", "continue", "evaluate", "stackTrace", "threads", "scopes", "disconnect", "next", "modules", "variables"][t.choose(12)]
+                // a client that stays connected after the exit: keeps asking, pauses, relaunches
+                ["threads", "restart", "disconnect", "continue", "evaluate", "stackTrace", "threads", "scopes", "disconnect", "next", "modules", "variables", "launch", "launch", "pause", "terminateThreads", "configurationDone", "threads"][t.choose(18)]
             } else {
                 ["continue", "continue", "continue", "next", "stepIn", "stepOut", "threads", "stackTrace", "scopes", "variables", "evaluate", "setBreakpoints", "setFunctionBreakpoints", "pause", "restart", "modules", "loadedSources"][t.choose(17)]
             }
@@ -609,7 +610,8 @@ pub fn check_wire(records: &[Rec], run_result: &Result<(), String>, client_close
                 if resume.contains(&cmd.as_str()) {
                     stopped_pending = false;
                 }
-                if cmd == "launch" || cmd == "attach" || cmd == "restart" {
+                // a new epoch: a (re)launched debuggee, or the client starting the session over
+                if cmd == "launch" || cmd == "attach" || cmd == "restart" || cmd == "initialize" {
                     terminated = false;
                     exited = false;
                 }
@@ -632,6 +634,11 @@ pub fn check_wire(records: &[Rec], run_result: &Result<(), String>, client_close
                 }
                 match ev {
                     "stopped" => {
+                        let can_stop = ["configurationDone", "continue", "next", "stepIn", "stepOut", "pause", "restart", "goto", "restartFrame", "stepBack", "reverseContinue", "attach", "launch"];
+                        let w = window_req.as_ref().map(|w| w.0.clone()).unwrap_or_default();
+                        if !can_stop.contains(&w.as_str()) || (w == "launch" && m["body"]["reason"] != "entry") {
+                            extra.push(Violation { property: prop.into(), invariant: "stopped_without_resume".into(), detail: format!("{}: `stopped` (reason {}) announced while handling `{w}`, which does not run the debuggee", short(m), m["body"]["reason"]), step: i });
+                        }
                         if stopped_pending {
                             extra.push(Violation { property: prop.into(), invariant: "duplicate_stopped".into(), detail: format!("{}: second `stopped` without a resume in between", short(m)), step: i });
                         }
